@@ -248,9 +248,9 @@ def run(ctx):
     progs = PROGRAMS if ctx.tier == 'thorough' else PROGRAMS
     params = {'programs': progs, 'seed': ctx.seed, 'timeout_ms': 10000, 'step_limit': 20_000_000}
     eng = ctx.engine('dev')
-    recs, summ = ex.explore(eng, harness, dict(params, modes=['parse-only', 'once', 'twice-same-ast'], wall_budget=200 if ctx.tier == 'quick' else 1200), prepare=prepare)
-    recs2, summ2 = ex.explore(eng, harness, dict(params, modes=['repeat'], wall_budget=200 if ctx.tier == 'quick' else 1500), prepare=prepare)
-    recs3, summ3 = ex.explore(eng, harness, dict(params, programs=REG_PROGRAMS, modes=['parse-then-register'], wall_budget=120 if ctx.tier == 'quick' else 600), prepare=prepare)
+    recs, summ = ex.explore(eng, harness, dict(params, modes=['parse-only', 'once', 'twice-same-ast'], wall_budget=500 if ctx.tier == 'quick' else 900), prepare=prepare)
+    recs2, summ2 = ex.explore(eng, harness, dict(params, modes=['repeat'], wall_budget=500 if ctx.tier == 'quick' else 900), prepare=prepare)
+    recs3, summ3 = ex.explore(eng, harness, dict(params, programs=REG_PROGRAMS, modes=['parse-then-register'], wall_budget=300 if ctx.tier == 'quick' else 400), prepare=prepare)
     recs += recs2 + recs3
     for s_ in (summ2, summ3):
         for k in ('paths', 'sat', 'unsat', 'unknown', 'solver_s', 'steps', 'decisions'):
